@@ -218,6 +218,8 @@ Definition set_params (s : stack) (params : list string) : stack * bool :=
   | _, t :: rest =>
       if 0 <? t_numparams t then (s, false)
       else if t_disable_params t then (s, false)
+      else if existsb (fun p => match lookup p (t_store t) with Some _ => true | None => false end) params then (s, false)
+      else if 0 <? t_numdef t then (s, false)      (* parameters must be declared before variables *)
       else set_params_go params (set_numparams t (Z.of_nat (List.length params)) :: rest)
   end.
 
